@@ -424,6 +424,12 @@ LegalSeq(out, why) ==
    /\ (Count(ss, "S.AddMissedReg") = 1) => ss = <<"S.AddConn", "S.AddMissedReg", "S.CloseConn">>
    /\ (why = "match") <=> (LastOf(ss) = "S.CloseConn" /\ Count(ss, "S.AddMissedReg") = 0)
 
+\* symmetry breaking for the bounded configurations: ids start in order (c2 only once c1 has, k2 only once k1 has)
+Order == <<"c1", "c2", "c3", "k1", "k2">>
+Canon == \A i \in 1..(Len(Order) - 1) :
+           /\ (Order[i] \in Conns /\ Order[i + 1] \in Conns) => (conn[Order[i + 1]].st # "idle" => conn[Order[i]].st # "idle")
+           /\ (Order[i] \in Kons /\ Order[i + 1] \in Kons) => (kst[Order[i + 1]].st # "idle" => kst[Order[i]].st # "idle")
+
 \* ------------------------------------------------------------------ properties
 Terminal(c) == conn[c].st \in Outcomes
 InState(f, s) == Cardinality({c \in Conns : conn[c].st = s /\ conn[c].fam = f})
@@ -446,7 +452,9 @@ Ledger == Quiet => \A f \in Fams, x \in Outcomes : gone[f][x] + glob[f][x] = InS
 \* the per-ASN rows are printed and replaced under the mutex: exact as found
 AsnLedger == Quiet => \A f \in Fams, x \in Outcomes :
                gonea[f][x] + TabSum(tab, f, x) = Cardinality({c \in Conns : conn[c].st = x /\ conn[c].fam = f /\ conn[c].cc # ""})
-\* per epoch: resolved = sum of the outcomes, total = sum of the transitions
+\* per epoch: resolved = sum of the outcomes, total = sum of the transitions.  (Granularity: the 4-5 atomic adds of one
+\* call are one step here; in the code reset()'s stores can fall between them, so on the real object these two hold at
+\* quiescence only for epochs in which no call straddled a reset - stage C does not rely on them.)
 OutcomeSum == Quiet => \A f \in Fams : glob[f]["resolved"] = SumF(glob[f], Outcomes)
 TotalIsSum == Quiet => \A f \in Fams : glob[f]["total"] = SumF(glob[f], TransNames)      \* INTENDED (CreatedToClose is forgotten)
 \* arrivals = resolved + in flight, over all epochs (needs new / resolved of an epoch to be cleared together: holds)
